@@ -698,10 +698,61 @@ def run_blocks(P, beh: List[dict], kind: int = 0) -> List[dict]:
         held.extend(_take_handles(P))        # objects made HERE are written through at every later probe
         return e
 
+    class Other:
+        """another thread of the process that enters / leaves disable blocks of its own on command"""
+
+        def __init__(self):
+            import queue
+            import threading
+            self.q, self.done = queue.Queue(), queue.Queue()
+            self.t = threading.Thread(target=self.loop, daemon=True)
+            self.t.start()
+
+        def loop(self):
+            cms = []
+            while True:
+                cmd = self.q.get()
+                try:
+                    if cmd == "enter":
+                        cm = disable_message_validation()
+                        cm.__enter__()
+                        cms.append(cm)
+                    elif cmd == "exit" and cms:
+                        cm = cms.pop()
+                        if len(cms) % 2:
+                            cm.__exit__(None, None, None)
+                        else:       # left by an exception
+                            try:
+                                cm.__exit__(ValueError, ValueError("x"), None)
+                            except BaseException:   # noqa: BLE001
+                                pass
+                    elif cmd == "stop":
+                        while cms:
+                            cms.pop().__exit__(None, None, None)
+                        self.done.put("ok")
+                        return
+                    self.done.put("ok")
+                except BaseException as e:   # noqa: BLE001
+                    self.done.put(repr(e))
+
+        def do(self, cmd):
+            self.q.put(cmd)
+            return self.done.get(timeout=30)
+
+    other = [None]
+
     def level(i: int, depth: int) -> Tuple[int, int, bool]:
         """runs steps from i at this nesting level; returns (next i, blocks still to unwind by exception, explicit exit)"""
         while i < len(beh):
             s = beh[i]
+            if s["a"] in ("OtherEnter", "OtherExit"):
+                if other[0] is None:
+                    other[0] = Other()
+                other[0].do("enter" if s["a"] == "OtherEnter" else "exit")
+                ev.append({"a": s["a"], "m": s.get("m", "-"), "k": s.get("k", 0)})
+                ev.append(probe())
+                i += 1
+                continue
             if s["a"] == "Enter":
                 pend, explicit = 0, True
                 ev.append({"a": "Enter", "m": s["m"], "k": 0})
